@@ -440,6 +440,22 @@ func (e *sengine) step(p *spath, fr *sframe, in ssa.Instruction) {
 		if e.ctx != nil {
 			if ld, ok := x.X.(*ssa.UnOp); ok && ld.Op == token.MUL {
 				if g, ok := ld.X.(*ssa.Global); ok {
+					if ft := e.ctx.funcTableOf(g); ft != nil && len(ft.fns) > 0 {
+						// a table of functions: the entry for a known key is that function
+						if k := e.val(fr, x.Index); k.k == 'i' {
+							f, found := ft.fns[k.i]
+							fv := iv{k: 'n'}
+							if found {
+								fv = iv{k: 'f', fn: f}
+							}
+							if x.CommaOk {
+								fr.vals[x] = ivTuple(fv, ivBool(found))
+							} else {
+								fr.vals[x] = fv
+							}
+						}
+						return
+					}
 					if ct := e.ctx.constTableOf(g.Object()); ct != nil && ct.isMap && len(ct.strs) == 0 {
 						if k := e.val(fr, x.Index); k.k == 'i' {
 							v, found := ct.ints[k.i]
